@@ -303,14 +303,25 @@ func runSL(env *Env) {
 					barrier.Release(tok)
 					out.Ok = found
 				case "del":
-					if !mm {
+					if !mm && op.Arg(0)%20 == 0 {
 						out.Ok = sl.Delete(newItem(k), cmp, buf, sts)
+					} else if !mm {
+						_, curr, found := sl.Lookup(newItem(k), cmp, buf, sts)
+						if found {
+							out.Ok = sl.DeleteNode(curr, cmp, buf, sts)
+							if out.Ok && linkedAtLevel0(sl, curr, nil) {
+								env.Violate("C15", "deleted-node-still-linked-after-delete-returned", "DeleteNode(%d) returned true but its node is still linked at level 0: a scan starting now returns the deleted item", k)
+							}
+						}
 					} else {
 						tok := barrier.Acquire()
 						_, curr, found := sl.Lookup(newItem(k), cmp, buf, sts)
 						ok := false
 						if found {
 							ok = sl.DeleteNode2(curr, cmp, buf, sts)
+						}
+						if ok && linkedAtLevel0(sl, curr, ga.IsLive) {
+							env.Violate("C15", "deleted-node-still-linked-after-delete-returned", "DeleteNode2(%d) returned true but its node is still linked at level 0: a scan starting now returns the deleted item", k)
 						}
 						barrier.Release(tok)
 						if ok {
